@@ -16,6 +16,7 @@ import (
 	"github.com/parquet-go/parquet-go"
 
 	"verifharness/core"
+	"verifharness/drv"
 	"verifharness/gen"
 )
 
@@ -61,7 +62,7 @@ func c02GoSummary(file []byte) (string, error) {
 }
 
 func RunC02(ctx *core.Ctx) {
-	ctx.SetRule("files written from catalogue struct types under random configurations (page version, codec (40 % of the cases force none, snappy or gzip file-wide; fields keep their own codec/encoding tags), page/row-group/dictionary limits, statistics, bloom filters), by GenericWriter, by a writer reused through Reset, and through WriteRowGroup from a file or a buffer; each file is parsed by the Lean spec reader (thrift compact, footer, page headers at the announced offsets, offset/column index) which re-derives the layout numbers with the proved accounting model and, for uncompressed, snappy and gzip chunks, decompresses (spec Snappy reader, spec inflate/gunzip) and decodes every page with the spec decoders (levels, dictionary, PLAIN/RLE/DELTA_*/BYTE_STREAM_SPLIT values) comparing decoded counts with the headers and indexes; the decoded Dremel streams (file.dump) are compared column by column with the reference shredder's streams of the rows written (columns with a chunk in another codec are skipped and counted); non-trivial = more than one page in some chunk or more than one row group")
+	ctx.SetRule("files written from catalogue struct types under random configurations (page version, codec (40 % of the cases force none, snappy or gzip file-wide; fields keep their own codec/encoding tags), page/row-group/dictionary limits, statistics, bloom filters), by GenericWriter, by a writer reused through Reset, and through WriteRowGroup from a file written with the same options (verbatim copy), from a file written with other options (re-encode) or from a buffer; catalogue types with Go maps included (structure and counts only); random key/value metadata, created_by and declared sorting columns, which the spec views of the footer (file.meta) must return as configured; the page-index offsets must be those the mirror of writeFileFooter computes from the same lengths (L2); sub-check longrow: one row whose list has 1023..131073 elements (around every power-of-two multiple of the 1024-value copy buffer) through every mode; each file is parsed by the Lean spec reader (thrift compact, footer, page headers at the announced offsets, offset/column index) which re-derives the layout numbers with the proved accounting model and, for uncompressed, snappy and gzip chunks, decompresses (spec Snappy reader, spec inflate/gunzip) and decodes every page with the spec decoders (levels, dictionary, PLAIN/RLE/DELTA_*/BYTE_STREAM_SPLIT values) comparing decoded counts with the headers and indexes; the decoded Dremel streams (file.dump) are compared column by column with the reference shredder's streams of the rows written (columns with a chunk in another codec are skipped and counted); non-trivial = more than one page in some chunk or more than one row group")
 	tmp := filepath.Join(".build", "tmp", fmt.Sprintf("c02-%s-%d", ctx.Variant, os.Getpid()))
 	os.MkdirAll(tmp, 0o755)
 	defer os.RemoveAll(tmp)
@@ -75,7 +76,10 @@ func RunC02(ctx *core.Ctx) {
 	}
 	var wg sync.WaitGroup
 	sem := make(chan struct{}, 16)
-	for _, e := range gen.Catalog {
+	// the types with Go maps too (MAP groups, struct-valued maps: leaves four levels down): their
+	// files get every structural and count check; the stream comparison does not apply (entry order)
+	entries := append(append([]*gen.Entry{}, gen.Catalog...), gen.MapCatalog...)
+	for _, e := range entries {
 		wg.Add(1)
 		sem <- struct{}{}
 		go func(e *gen.Entry) {
@@ -125,80 +129,280 @@ func RunC02(ctx *core.Ctx) {
 					opts = append(append([]parquet.WriterOption{}, opts...), parquet.Compression(gen.Codecs[name]))
 					desc += " filecodec=" + name
 				}
-				mode := []string{"direct", "direct", "reset-reuse", "copy-from-file", "copy-from-buffer"}[r.Intn(5)]
+				mode := c02Modes[r.Intn(len(c02Modes))]
 				if k == 1 {
 					mode = "direct"
 				}
-				file, err := c02Write(e, rows, mode, opts, c01Batches(r, n), r)
+				var srcOpts []parquet.WriterOption
+				if mode == "reencode-from-file" {
+					sc := gen.RandWriterCfg(r)
+					srcOpts = sc.Opts
+					desc += " | source file: " + sc.Desc
+				}
+				meta := c02RandMeta(r, e, mode)
+				opts = append(append([]parquet.WriterOption{}, opts...), meta.opts...)
+				desc += meta.desc
+				file, err := c02Write(e, rows, mode, opts, srcOpts, c01Batches(r, n), r)
 				detail := map[string]any{"type": e.Name, "config": desc, "mode": mode, "rows": n, "seed_stream": "c02/" + e.Name, "case_index": k}
 				if err != nil {
 					ctx.Fail("L1", "write-error mode="+mode+" "+errClass(err), "writing valid rows failed: "+err.Error(), detail)
 					continue
 				}
-				path := filepath.Join(tmp, fmt.Sprintf("%s-%d.parquet", e.Name, k))
-				if err := os.WriteFile(path, file, 0o644); err != nil {
-					ctx.Fail("L2", "tmp-write", err.Error(), nil)
-					continue
-				}
-				abs, _ := filepath.Abs(path)
-				answers, err := d.AskMany([]string{fmt.Sprintf("file.check %s %d", abs, cfg.MaxRows), "file.dump " + abs})
-				os.Remove(path)
-				if err != nil {
-					ctx.Fail("L2", "driver-error", err.Error(), nil)
+				if !c02Judge(ctx, d, tmp, e, rows, file, mode, desc, cfg.MaxRows, k, n, detail, meta) {
 					return
 				}
-				ans, dump := answers[0], answers[1]
-				ctx.Hist("mode", mode)
-				switch {
-				case strings.HasPrefix(ans, "ok "):
-					sum := ans[3:]
-					multi := !strings.Contains(sum, "rg=1 ") && !strings.Contains(sum, "rg=0 ")
-					var chunks, data int
-					fmt.Sscanf(sum[strings.Index(sum, "chunks="):], "chunks=%d data=%d", &chunks, &data)
-					if i := strings.Index(sum, "decoded="); i >= 0 {
-						var decoded, capped int
-						fmt.Sscanf(sum[i:], "decoded=%d capped=%d", &decoded, &capped)
-						ctx.HistN("data-pages", "value-decoded (none/snappy/gzip)", int64(decoded))
-						ctx.HistN("data-pages", "structural only (other codec)", int64(data-decoded-capped))
-						ctx.HistN("data-pages", "capped", int64(capped))
-					}
-					ctx.Case(e.Name+desc+mode+fmt.Sprint(k, n), multi || data > chunks)
-					if k == 0 {
-						ctx.Sample(map[string]any{"type": e.Name, "config": desc, "mode": mode, "rows": n, "spec_reader": sum})
-					}
-					gs, gerr := c02GoSummary(file)
-					if gerr != nil {
-						ctx.Fail("L1", "open-error "+errClass(gerr), "the library cannot open its own file: "+gerr.Error(), detail)
-					} else {
-						// compare the fields both summaries carry
-						var rg, ch, a, b, c2, v2, oi, ci int
-						fmt.Sscanf(sum, "rg=%d chunks=%d data=%d dict=%d crc=%d v2=%d oi=%d ci=%d", &rg, &ch, &a, &b, &c2, &v2, &oi, &ci)
-						if want := fmt.Sprintf("rg=%d chunks=%d oi=%d ci=%d", rg, ch, oi, ci); want != gs {
-							detail["spec_reader"], detail["library_reader"] = want, gs
-							ctx.Fail("L2", "spec-reader-vs-library-metadata", "the Lean spec reader and the library's reader see different file structure", detail)
-						}
-					}
-				case strings.HasPrefix(ans, "bad "):
-					ctx.Case(e.Name+desc+mode+fmt.Sprint(k, n), true)
-					parts := strings.SplitN(ans, " | ", 2)
-					for _, p := range strings.Split(parts[1], " ; ") {
-						detail["problem"] = p
-						detail["all_problems"] = parts[1]
-						ctx.Fail("L1", "malformed mode="+mode+": "+c02Class(p), "file metadata does not describe the bytes present: "+p, detail)
-					}
-				default:
-					ctx.Case(e.Name+desc+mode+fmt.Sprint(k, n), true)
-					detail["answer"] = ans
-					ctx.Fail("L1", "unparsable mode="+mode+": "+c02Class(ans), "the spec reader cannot parse the file: "+ans, detail)
-				}
-				c02Values(ctx, e, rows, file, mode, strings.HasPrefix(ans, "ok "), dump, detail)
 			}
 		}(e)
 	}
 	wg.Wait()
 }
 
-func c02Write(e *gen.Entry, rows reflect.Value, mode string, opts []parquet.WriterOption, batches []int, r *rand.Rand) (file []byte, err error) {
+// c02Judge runs the Lean spec reader over one written file and files every clause it reports
+// (L1), compares the structure summary with the library's own reader (L2) and the decoded Dremel
+// streams with the reference shredder's (L1). false = the driver is gone.
+func c02Judge(ctx *core.Ctx, d *drv.Driver, tmp string, e *gen.Entry, rows reflect.Value, file []byte, mode, desc string, maxRows int64, k, n int, detail map[string]any, meta *c02Meta) bool {
+	path := filepath.Join(tmp, fmt.Sprintf("%s-%d.parquet", e.Name, k))
+	if err := os.WriteFile(path, file, 0o644); err != nil {
+		ctx.Fail("L2", "tmp-write", err.Error(), nil)
+		return true
+	}
+	abs, _ := filepath.Abs(path)
+	answers, err := d.AskMany([]string{fmt.Sprintf("file.check %s %d", abs, maxRows), "file.dump " + abs, "file.meta " + abs})
+	os.Remove(path)
+	if err != nil {
+		ctx.Fail("L2", "driver-error", err.Error(), nil)
+		return false
+	}
+	ans, dump := answers[0], answers[1]
+	c02JudgeMeta(ctx, answers[2], meta, mode, strings.HasPrefix(ans, "ok "), detail)
+	ctx.Hist("mode", mode)
+	switch {
+	case strings.HasPrefix(ans, "ok "):
+		sum := ans[3:]
+		multi := !strings.Contains(sum, "rg=1 ") && !strings.Contains(sum, "rg=0 ")
+		var chunks, data int
+		fmt.Sscanf(sum[strings.Index(sum, "chunks="):], "chunks=%d data=%d", &chunks, &data)
+		if i := strings.Index(sum, "decoded="); i >= 0 {
+			var decoded, capped int
+			fmt.Sscanf(sum[i:], "decoded=%d capped=%d", &decoded, &capped)
+			ctx.HistN("data-pages", "value-decoded (none/snappy/gzip)", int64(decoded))
+			ctx.HistN("data-pages", "structural only (other codec)", int64(data-decoded-capped))
+			ctx.HistN("data-pages", "capped", int64(capped))
+			if j := strings.Index(sum, "bloom="); j >= 0 {
+				var bl int
+				fmt.Sscanf(sum[j:], "bloom=%d", &bl)
+				ctx.HistN("bloom filter sections parsed by the spec reader", mode, int64(bl))
+			}
+		}
+		ctx.Case(e.Name+desc+mode+fmt.Sprint(k, n), multi || data > chunks)
+		if k == 0 {
+			ctx.Sample(map[string]any{"type": e.Name, "config": desc, "mode": mode, "rows": n, "spec_reader": sum})
+		}
+		gs, gerr := c02GoSummary(file)
+		if gerr != nil {
+			ctx.Fail("L1", "open-error "+errClass(gerr), "the library cannot open its own file: "+gerr.Error(), detail)
+		} else {
+			// compare the fields both summaries carry
+			var rg, ch, a, b, c2, v2, oi, ci int
+			fmt.Sscanf(sum, "rg=%d chunks=%d data=%d dict=%d crc=%d v2=%d oi=%d ci=%d", &rg, &ch, &a, &b, &c2, &v2, &oi, &ci)
+			if want := fmt.Sprintf("rg=%d chunks=%d oi=%d ci=%d", rg, ch, oi, ci); want != gs {
+				detail["spec_reader"], detail["library_reader"] = want, gs
+				ctx.Fail("L2", "spec-reader-vs-library-metadata", "the Lean spec reader and the library's reader see different file structure", detail)
+			}
+		}
+	case strings.HasPrefix(ans, "bad "):
+		ctx.Case(e.Name+desc+mode+fmt.Sprint(k, n), true)
+		parts := strings.SplitN(ans, " | ", 2)
+		for _, p := range strings.Split(parts[1], " ; ") {
+			detail["problem"] = p
+			detail["all_problems"] = parts[1]
+			ctx.Fail("L1", "malformed mode="+mode+": "+c02Class(p), "file metadata does not describe the bytes present: "+p, detail)
+		}
+	default:
+		ctx.Case(e.Name+desc+mode+fmt.Sprint(k, n), true)
+		detail["answer"] = ans
+		ctx.Fail("L1", "unparsable mode="+mode+": "+c02Class(ans), "the spec reader cannot parse the file: "+ans, detail)
+	}
+	c02Values(ctx, e, rows, file, mode, strings.HasPrefix(ans, "ok "), dump, detail)
+	return true
+}
+
+// c02Modes: the ways a file comes into being. "copy-from-file" hands the row groups of a file
+// written with the SAME options to WriteRowGroup (chunks copied verbatim); "reencode-from-file"
+// hands over the row groups of a file written with OTHER options (page version, codec, limits),
+// so that the writer re-encodes the values column by column or row by row; "copy-from-buffer"
+// writes a GenericBuffer through WriteRowGroup (column-wise re-encode of in-memory columns).
+var c02Modes = []string{"direct", "direct", "reset-reuse", "copy-from-file", "copy-from-buffer", "reencode-from-file"}
+
+// c02Meta: footer metadata a case asks for (options) and what the file must then say
+type c02Meta struct {
+	opts      []parquet.WriterOption
+	desc      string
+	kv        map[string]string // nil = none configured
+	createdBy [3]string         // application, version, build ("" application = default)
+	sorting   []string          // "leafIndex/desc/nullsFirst" in declaration order
+}
+
+var c02KeyPool = []string{"k", "", "writer.model.name", "ARROW:schema", "caf\u00e9", "\u65e5\u672c", "a b", "key-with-a-rather-long-name-0123456789-0123456789-0123456789", "k2"}
+var c02ValPool = []string{"", "v", "{\"a\":1}", "\u00e9\u00e8", "0123456789012345678901234567890123456789012345678901234567890123456789012345678901234567890123456789012345678901234567890123456789", " "}
+
+// c02RandMeta: key/value metadata (0-4 pairs, a repeated key keeps the last value as documented),
+// created_by, and declared sorting columns (metadata only: the plain writer records the
+// declaration, it neither sorts nor verifies)
+func c02RandMeta(r *rand.Rand, e *gen.Entry, mode string) *c02Meta {
+	m := &c02Meta{}
+	if r.Intn(2) == 0 {
+		m.kv = map[string]string{}
+		for i, n := 0, 1+r.Intn(4); i < n; i++ {
+			k, v := c02KeyPool[r.Intn(len(c02KeyPool))], c02ValPool[r.Intn(len(c02ValPool))]
+			m.kv[k] = v
+			m.opts = append(m.opts, parquet.KeyValueMetadata(k, v))
+		}
+		m.desc += fmt.Sprintf(" kv=%q", m.kv)
+	}
+	if r.Intn(3) == 0 {
+		m.createdBy = [3]string{[]string{"verif", "my app", "caf\u00e9"}[r.Intn(3)], []string{"1.0", "0.0.0-rc1", ""}[r.Intn(3)], []string{"abc123", "", "6cf94d29b2b7115df4de2c06e2ab4326d721eb55"}[r.Intn(3)]}
+		m.opts = append(m.opts, parquet.CreatedBy(m.createdBy[0], m.createdBy[1], m.createdBy[2]))
+		m.desc += fmt.Sprintf(" created_by=%q", m.createdBy)
+	}
+	paths := e.Schema.Columns()
+	if (mode == "direct" || mode == "reset-reuse" || mode == "copy-from-file") && len(paths) > 0 && r.Intn(3) == 0 {
+		var scs []parquet.SortingColumn
+		used := map[int]bool{}
+		for i, n := 0, 1+r.Intn(3); i < n; i++ {
+			li := r.Intn(len(paths))
+			if used[li] {
+				continue
+			}
+			used[li] = true
+			desc, nf := r.Intn(2) == 0, r.Intn(2) == 0
+			var sc parquet.SortingColumn
+			if desc {
+				sc = parquet.Descending(paths[li]...)
+			} else {
+				sc = parquet.Ascending(paths[li]...)
+			}
+			if nf {
+				sc = parquet.NullsFirst(sc)
+			}
+			scs = append(scs, sc)
+			b := map[bool]string{false: "0", true: "1"}
+			m.sorting = append(m.sorting, fmt.Sprintf("%d/%s/%s", li, b[desc], b[nf]))
+		}
+		m.opts = append(m.opts, parquet.SortingWriterConfig(parquet.SortingColumns(scs...)))
+		m.desc += " sorting=" + strings.Join(m.sorting, "+")
+	}
+	return m
+}
+
+var c02CreatedByForm = regexp.MustCompile(`^(.*) version (.*?) ?\(build (.*)\)$`)
+
+// c02JudgeMeta: the spec views of the footer metadata (file.meta) against what was configured
+// (L1), and the page-index offsets against the mirror of writeFileFooter (L2).
+func c02JudgeMeta(ctx *core.Ctx, ans string, meta *c02Meta, mode string, checkOK bool, detail map[string]any) {
+	with := func(extra map[string]any) map[string]any {
+		m := map[string]any{"file_meta": ans}
+		for k, v := range detail {
+			m[k] = v
+		}
+		for k, v := range extra {
+			m[k] = v
+		}
+		return m
+	}
+	if !strings.HasPrefix(ans, "ok ") {
+		if checkOK {
+			ctx.Fail("L1", "meta-unreadable mode="+mode+": "+c02Class(ans), "file.check accepts the file but file.meta cannot read its footer: "+ans, with(nil))
+		}
+		return
+	}
+	field := func(name string) string {
+		i := strings.Index(ans, " "+name+"=")
+		if i < 0 {
+			return ""
+		}
+		rest := ans[i+len(name)+2:]
+		if name == "layout" {
+			return rest
+		}
+		if j := strings.Index(rest, " "); j >= 0 {
+			rest = rest[:j]
+		}
+		return rest
+	}
+	unhex := func(h string) (string, bool) {
+		if h == "-" {
+			return "", true
+		}
+		b, err := hex.DecodeString(h)
+		return string(b), err == nil
+	}
+	var nidx int
+	fmt.Sscanf(field("indexes"), "%d", &nidx)
+	ctx.HistN("page-index structures laid out by the mirror", mode, int64(nidx))
+	if lay := field("layout"); lay != "agrees" {
+		ctx.Fail("L2", "page-index-layout-mirror mode="+mode, "the page-index offsets of the file are not those the mirror of writeFileFooter computes from the same lengths: "+lay, with(nil))
+	}
+	if meta == nil {
+		return
+	}
+	// created_by
+	cb := field("created_by")
+	if meta.createdBy[0] != "" {
+		ctx.Hist("footer metadata", "created_by configured")
+		got, ok := unhex(cb)
+		mm := c02CreatedByForm.FindStringSubmatch(got)
+		if cb == "none" || !ok || mm == nil || mm[1] != meta.createdBy[0] || mm[2] != meta.createdBy[1] || mm[3] != meta.createdBy[2] {
+			ctx.Fail("L1", "created-by-differs mode="+mode, fmt.Sprintf("created_by of the file is %q, configured application/version/build %q", got, meta.createdBy), with(nil))
+		} else if want := meta.createdBy[0] + " version " + meta.createdBy[1] + " (build " + meta.createdBy[2] + ")"; got != want {
+			ctx.Observe("created-by-lacks-space-before-build", "created_by is written as \"<application> version <version>(build <build>)\": the convention of the format (and the doc comment of CreatedBy) has a space before \"(build\"", map[string]any{"created_by": got, "convention": want})
+		}
+	} else if cb == "none" {
+		ctx.Fail("L1", "created-by-missing mode="+mode, "the file has no created_by although the writer has a default", with(nil))
+	}
+	// key/value metadata: the configured pairs, as a set (the library orders them by key)
+	got := map[string]string{}
+	bad := ""
+	if f := field("kv"); f != "-" {
+		for _, p := range strings.Split(f, ",") {
+			kh, vh, found := strings.Cut(p, ":")
+			k, ok1 := unhex(kh)
+			v, ok2 := unhex(vh)
+			if !found || !ok1 || !ok2 || vh == "none" {
+				bad = "pair " + p + " has no key or no value"
+			}
+			if _, dup := got[k]; dup {
+				bad = fmt.Sprintf("key %q is written twice", k)
+			}
+			got[k] = v
+		}
+	}
+	want := meta.kv
+	if want == nil {
+		want = map[string]string{}
+	} else {
+		ctx.Hist("footer metadata", fmt.Sprintf("%d key/value pairs", len(want)))
+	}
+	if bad != "" || !reflect.DeepEqual(got, want) {
+		ctx.Fail("L1", "key-value-metadata-differs mode="+mode, fmt.Sprintf("key_value_metadata of the file is %q, configured %q %s", got, want, bad), with(nil))
+	}
+	// sorting columns: every row group carries the declaration
+	wantS := "-"
+	if len(meta.sorting) > 0 {
+		wantS = strings.Join(meta.sorting, "+")
+		ctx.Hist("footer metadata", "sorting columns declared")
+	}
+	if f := field("sorting"); f != "" {
+		for i, rg := range strings.Split(f, ";") {
+			if rg != wantS {
+				ctx.Fail("L1", "sorting-columns-differ mode="+mode, fmt.Sprintf("row group %d announces sorting columns %s, declared %s (leaf index/descending/nulls first)", i, rg, wantS), with(nil))
+				break
+			}
+		}
+	}
+}
+
+func c02Write(e *gen.Entry, rows reflect.Value, mode string, opts, srcOpts []parquet.WriterOption, batches []int, r *rand.Rand) (file []byte, err error) {
 	defer func() {
 		if x := recover(); x != nil {
 			err = fmt.Errorf("PANIC: %v", x)
@@ -229,9 +433,12 @@ func c02Write(e *gen.Entry, rows reflect.Value, mode string, opts []parquet.Writ
 			}
 		}
 		err = w.Close()
-	case "copy-from-file":
+	case "copy-from-file", "reencode-from-file":
 		var src bytes.Buffer
-		if err = e.WriteGeneric(&src, rows.Interface(), batches, opts...); err != nil {
+		if mode == "copy-from-file" {
+			srcOpts = opts
+		}
+		if err = e.WriteGeneric(&src, rows.Interface(), batches, srcOpts...); err != nil {
 			return nil, err
 		}
 		f, err2 := parquet.OpenFile(bytes.NewReader(src.Bytes()), int64(src.Len()))
@@ -312,7 +519,7 @@ func c02ColumnInfo(file []byte, ncol int) []string {
 func c02Values(ctx *core.Ctx, e *gen.Entry, rows reflect.Value, file []byte, mode string, checkOK bool, dump string, detail map[string]any) {
 	paths := e.Schema.Columns()
 	var sh gen.Shredder
-	for i := 0; i < rows.Len(); i++ {
+	for i := 0; i < rows.Len() && !e.HasMap; i++ {
 		sh.ShredRow(e.Schema, rows.Index(i))
 	}
 	expected := sh.Cols
@@ -340,6 +547,11 @@ func c02Values(ctx *core.Ctx, e *gen.Entry, rows reflect.Value, file []byte, mod
 			ctx.Fail("L1", "values-undecodable mode="+mode+": "+c02Class(strings.TrimPrefix(dump, "err ")), "file.check accepts the file but file.dump cannot decode it: "+dump, with(map[string]any{"dump_answer": dump}))
 		}
 		ctx.Hist("values", "dump-error")
+		return
+	}
+	if e.HasMap {
+		// the entry order of a Go map is unspecified: no stream to compare with
+		ctx.Hist("values", "map-type (decodable, streams not compared)")
 		return
 	}
 	body := strings.TrimPrefix(strings.TrimPrefix(dump, "ok"), " ")
